@@ -692,6 +692,32 @@ func (x *Exec) compileCall(env *Env, e *SCall) Value {
 		}
 		return x.compileTV(env, e.Args[i])
 	}
+	if strings.HasPrefix(e.Fun, ".") {
+		// x.M(args): the value an interface method call returns (first result)
+		recv := argTV(0)
+		it, ok := recv.Ty.Underlying().(*types.Interface)
+		if !ok {
+			env.fail("method call %s on non-interface %s", e.Fun, recv.Ty)
+		}
+		var m *types.Func
+		for i := 0; i < it.NumMethods(); i++ {
+			if it.Method(i).Name() == e.Fun[1:] {
+				m = it.Method(i)
+			}
+		}
+		if m == nil {
+			env.fail("%s has no method %s", recv.Ty, e.Fun[1:])
+		}
+		var ats []*Term
+		for i := 1; i < len(e.Args); i++ {
+			ats = append(ats, argTV(i).T)
+		}
+		rs, tys, ok := x.invokeApp(recv.Ty, m, recv.T, ats)
+		if !ok {
+			env.fail("method call %s: unsupported signature or argument sorts", e.Fun)
+		}
+		return TV{rs[0], tys[0]}
+	}
 	switch e.Fun {
 	case "old":
 		oe := env.asOld()
